@@ -21,7 +21,8 @@ LEVEL = 'exploration'
 TECHNIQUE = 'bounded exhaustive program enumeration; graph edges vs generator terms and vs the all-branch read set of the real generated code over recording values'
 RULE = ('strata S1, S2, S4 (8 quick / 12 thorough RHS options), S3 up to 4 (quick) / 5 (thorough) nodes, specials (several left-hand-side terms, offsets >= 10); the graph judged is the one returned after an earlier result was taken apart; per equation: node + equation attribute, in-edges among '
         'variable-like nodes == generator terms == cells read on some branch outcome. non-trivial = accepted program with at least one edge; distinct by script text'
-        ' Each program respelled (tight / wide assignment sign, blanks before every index bracket, a trailing comment holding terms and further hashes) gives the same graph.')
+        ' Each program respelled (tight / wide assignment sign, blanks before every index bracket, a trailing comment holding terms and further hashes) gives the same graph.'
+        ' The class built from the symbols must not call a period feasible at which a term with an edge is read from a wrapped-round cell.')
 ASSUMPTIONS = [
     '"actually read" = read on at least one branch outcome (conditional expressions read one branch)',
     'reads performed inside verbatim fragments are not expected to have edges (backticked code is opaque to the parser)',
